@@ -22,7 +22,7 @@ func init() {
 			"after the Invalids test of the object itself; hasNext is read from pendingDeferred after the payload was marshalled; (deferred-slot) a field routed to a deferred set gets graphql.Null in the parent's " +
 			"slot and is not also scheduled on the parent set; a deferred set's Invalids nulls only that group's result; (defer-noninterference) in graphql.collectFields and the same-package functions it calls, the " +
 			"outcome of deferrable() and the Deferrable mark of a collected field influence nothing but the Deferrable mark: no store into a CollectedField, the grouped-field slice, a selection set or the visited map is " +
-			"control dependent on, or computed from, such a value (information-flow analysis over SSA with control dependence and call-site propagation), so the selections collected for every field are the same with and without @defer.",
+			"control dependent on, or computed from, such a value (information-flow analysis over SSA with control dependence and call-site propagation), so the selections collected for every field are the same with and without @defer. (pending-queue, shared with C12) the multipart/mixed aggregator removes exactly what it wrote from its queue, under the lock that covered reading it: a payload added while a batch is being written is neither lost nor sent twice.",
 		NotDecided:  "equality of the merged payloads with the plain result, ordering of nested groups (schedule-level), evaluation of @defer's if/label arguments inside deferrable() (value-level)",
 		Assumptions: []string{"atomic counters and channel semantics"},
 	})
@@ -290,6 +290,8 @@ func runC13(c *Ctx) {
 	}
 
 	c13DeferNonInterference(c)
+	// delivery of every incremental payload exactly once over multipart/mixed (same rule as C12/pending-queue)
+	c12PendingQueue(c)
 }
 
 func factsHaveDeferrable(call ssa.CallInstruction) bool {
